@@ -1,7 +1,7 @@
 (* One entry point for the correspondence check: a request (an S-expression naming a stage and its input) is
    decoded, run through the model, and the observable encoded back.  Used extracted (driver/) and inside Coq. *)
 From Coq Require Import List String Ascii Bool NArith ZArith.
-From Yae Require Import Base.Sexp Model.Ty Gen.Generated Model.Unify Model.Lexer Model.Literal Model.Cst Model.Pratt Model.Desugar Model.Check Model.Num Model.Val Model.Render Model.Builtins Model.Eval Model.VM Model.Verifier Model.Sql Model.Debug Model.Api Model.Conv.
+From Yae Require Import Base.Sexp Model.Ty Gen.Generated Model.Unify Model.Lexer Model.Literal Model.Cst Model.Pratt Model.Desugar Model.Check Model.Num Model.Val Model.Render Model.Builtins Model.Eval Model.VM Model.Verifier Model.Sql Model.Debug Model.Api Model.Conv Model.EvalSpec.
 Import ListNotations.
 Open Scope string_scope.
 
@@ -363,6 +363,36 @@ Definition run_conv (args : list sexp) : sexp :=
   | _ => bad
   end.
 
+(* (envcall gty1 gv1 gty2 gv2 oracles src): compile against the host value v1, invoke with the host value v2
+   (facade: TypeEnvOf, Compile, ValEnvOf, envCheck, run) with the fixed user library registered *)
+Definition run_envcall (args : list sexp) : sexp :=
+  match args with
+  | [t1; v1; t2; v2; orc; src] =>
+      match dec_gty t1, dec_gv v1, dec_gty t2, dec_gv v2, dec_oracles orc, dNs src with
+      | Some t1', Some v1', Some t2', Some v2', Some orc', Some src' =>
+          match TypeEnvOf ops t1' v1' with
+          | None => A "compile-env-error"
+          | Some te =>
+              match api_compile ops orc' fenv_std te src' with
+              | AOk (_, code, pool) =>
+                  match ValEnvOf ops t2' v2' with
+                  | None => A "run-env-error"
+                  | Some rho =>
+                      let '(r, t) := api_call ops orc' te code pool rho in
+                      match r with
+                      | AOk v => L [A "ok"; enc_val (canon_val sort_entries v); enc_host_events t]
+                      | AErr => L [A "err"; enc_host_events t]
+                      | Escaped => A "escaped"
+                      end
+                  end
+              | _ => A "compile-error"
+              end
+          end
+      | _, _, _, _, _, _ => bad
+      end
+  | _ => bad
+  end.
+
 Definition dispatch (req : sexp) : sexp :=
   match req with
   | L (A tag :: args) =>
@@ -390,6 +420,7 @@ Definition dispatch (req : sexp) : sexp :=
       else if tag =? "debugsrc" then run_debugsrc args
       else if tag =? "apieval" then run_apieval args
       else if tag =? "conv" then run_conv args
+      else if tag =? "envcall" then run_envcall args
       else bad
   | _ => bad
   end.
